@@ -245,6 +245,9 @@ def invalid_templates(tier="quick"):
     variants.append(("output_named_twice", dyndep_text([("out", ["eo", "eo"], ["x"], False), ("out2", [], [], False)])))
     variants.append(("claims_other_output", dyndep_text([("out", ["other"], ["x"], False), ("out2", [], [], False)])))
     variants.append(("claims_bound_output", dyndep_text([("out", ["out2"], ["x"], False), ("out2", [], [], False)])))
+    # ... its own explicit output, once more, as an implicit one (the statement is its producer already)
+    variants.append(("claims_own_output", dyndep_text([("out", ["eo", "out"], ["x"], False), ("out2", [], [], False)])))
+    variants.append(("claims_own_output_only", dyndep_text([("out", ["out"], ["x"], False), ("out2", [], [], False)])))
     variants.append(("bad_version", good.replace("= 1", "= 2")))
     variants.append(("empty", ""))
     variants.append(("garbage_binding", good + "  foo = bar\n"))
@@ -309,7 +312,7 @@ def invalid_templates(tier="quick"):
     # an invalid dyndep file that is up to date (a valid one was built first, then its content was replaced), loaded when a
     # *phony* alias in front of its producer completes: the error surfaces in the branch of the main loop that finishes
     # phony statements
-    for vname, text in variants[:6] + [v for v in variants if v[0] in ("truncated@20", "empty", "bad_version")]:
+    for vname, text in variants[:6] + [v for v in variants if v[0] in ("truncated@20", "empty", "bad_version", "claims_own_output")]:
         st = [Stmt("prep", ex=["p.in"]), Stmt("al", ex=["prep"], phony=True), Stmt("dd", ex=["dd.in"], oo=["al"], copy=True)] + base_stmts()[1:]
         bad = ninja_op(j=1)
         bad["expect_error"] = True
